@@ -74,8 +74,26 @@ func c15Gen(r *Rand, tier string) interface{} {
 		in.Shape = 3
 		p := &c14In{Submitters: 1 + r.Intn(2), Isolated: true}
 		for i, n := 0, 2+r.Intn(2); i < n; i++ {
-			p.Tasks = append(p.Tasks, c14Task{Name: fmt.Sprintf("t%d", i), FailAt: -1, GapMS: r.Pick(0, 0, 1), By: r.Intn(p.Submitters),
-				Nested: true, NestLock: r.Pick(1, 2, 3, 3)})
+			t := c14Task{Name: fmt.Sprintf("t%d", i), FailAt: -1, GapMS: r.Pick(0, 0, 1), By: r.Intn(p.Submitters),
+				Nested: true, NestLock: r.Pick(1, 2, 3, 3)}
+			if r.Chance(1, 2) {
+				// a lock map handed to the runner, and sometimes a body that fails while holding it:
+				// whoever comes next for that resource still gets its turn
+				t.Nested, t.NestLock = false, 0
+				if r.Bool() {
+					t.WLock = []string{"db"}
+				} else {
+					t.RLock = []string{"db"}
+				}
+				t.Steps = r.Intn(2)
+				for k := 0; k < t.Steps; k++ {
+					t.WorkMS = append(t.WorkMS, r.Pick(0, 1, 5))
+				}
+				if r.Chance(1, 2) {
+					t.FailAt = r.Intn(t.Steps + 1)
+				}
+			}
+			p.Tasks = append(p.Tasks, t)
 		}
 		in.Pip = p
 		return in
